@@ -51,6 +51,11 @@ pub struct SendSpec {
     /// sender with the echoing module recorded as sender
     #[serde(default)]
     pub echo: bool,
+    /// a second message (id + 500) of the same size follows on the same gate at the same instant: on a hop with a
+    /// bitrate it finds the channel busy and waits in the channel's queue (all channels of such a case queue without
+    /// bound). Only honoured for a send that has its time slot for itself and is not echoed.
+    #[serde(default)]
+    pub follower: bool,
 }
 
 #[derive(Clone, Debug, Serialize, Deserialize)]
@@ -72,27 +77,29 @@ pub struct Case {
 pub struct C08;
 
 struct Node {
-    /// (trigger id, gate, delay, body bytes, time slot)
-    sends: Vec<(u16, GateRef, Option<u32>, u16, u16)>,
+    /// (trigger id, gate, delay, body bytes, time slot, with follower)
+    sends: Vec<(u16, GateRef, Option<u32>, u16, u16, bool)>,
     /// ids of messages this module echoes back on the given gate
     echoes: Vec<(u16, GateRef)>,
 }
 
 impl Module for Node {
     fn at_sim_start(&mut self, _: usize) {
-        for (id, _, _, _, slot) in &self.sends {
+        for (id, _, _, _, slot, _) in &self.sends {
             schedule_in(Message::default().kind(1).id(*id), Duration::from_secs(100 * (*slot as u64 + 1)));
         }
     }
     fn handle_message(&mut self, msg: Message) {
         if msg.header().kind == 1 {
             let id = msg.header().id;
-            let (_, gate, delay, body, _) = self.sends.iter().find(|s| s.0 == id).expect("trigger").clone();
-            let out = Message::default().kind(2).id(id).with_content(vec![0u8; body as usize]);
-            net::log("sent", id as i64, 0);
-            match delay {
-                None => send(out, gate),
-                Some(d) => send_in(out, gate, du(d as u128)),
+            let (_, gate, delay, body, _, follower) = self.sends.iter().find(|s| s.0 == id).expect("trigger").clone();
+            for id in [Some(id), follower.then_some(id + 500)].into_iter().flatten() {
+                let out = Message::default().kind(2).id(id).with_content(vec![0u8; body as usize]);
+                net::log("sent", id as i64, 0);
+                match delay {
+                    None => send(out, gate.clone()),
+                    Some(d) => send_in(out, gate.clone(), du(d as u128)),
+                }
             }
         } else {
             let h = msg.header();
@@ -120,11 +127,12 @@ impl ChannelProbe for Probe {
     }
 }
 
-fn metrics(ch: &Ch) -> Option<ChannelMetrics> {
+fn metrics(ch: &Ch, queue: bool) -> Option<ChannelMetrics> {
+    let drop = if queue { ChannelDropBehaviour::Queue(None) } else { ChannelDropBehaviour::Drop };
     match ch {
         Ch::None => None,
-        Ch::Latency(l) => Some(ChannelMetrics::new(0, du(*l as u128), Duration::ZERO, ChannelDropBehaviour::Drop)),
-        Ch::Rate(r, l) => Some(ChannelMetrics::new((*r).max(1) as usize, du(*l as u128), Duration::ZERO, ChannelDropBehaviour::Drop)),
+        Ch::Latency(l) => Some(ChannelMetrics::new(0, du(*l as u128), Duration::ZERO, drop)),
+        Ch::Rate(r, l) => Some(ChannelMetrics::new((*r).max(1) as usize, du(*l as u128), Duration::ZERO, drop)),
     }
 }
 
@@ -169,11 +177,12 @@ pub fn run_case(case: &Case) -> Result<(bool, Vec<&'static str>), Failure> {
     // connect calls: first call per hop in the generated order, repeats interleaved
     let mut hop_order: Vec<usize> = (0..k).collect();
     hop_order.sort_by_key(|h| (case.order.get(*h).copied().unwrap_or(0), *h));
+    let queue = case.sends.iter().any(|s| s.follower);
     let mut hop_ch: Vec<Ch> = vec![Ch::None; k];
     let mut connected = vec![false; k];
     let mut do_connect = |h: usize, flipped: bool, ch: &Ch, connected: &mut Vec<bool>, hop_ch: &mut Vec<Ch>| {
         let (a, b) = if flipped { (gates[h + 1].clone(), gates[h].clone()) } else { (gates[h].clone(), gates[h + 1].clone()) };
-        a.connect(b, metrics(ch).map(Channel::new));
+        a.connect(b, metrics(ch, queue).map(Channel::new));
         if !connected[h] {
             connected[h] = true;
             hop_ch[h] = ch.clone();
@@ -266,9 +275,15 @@ pub fn run_case(case: &Case) -> Result<(bool, Vec<&'static str>), Failure> {
             && !(i > 1 && slots[i - 1] == slots[i - 2]);
         slots.push(if share { slots[i - 1] } else { i as u16 });
     }
+    let follower_ok: Vec<bool> = case
+        .sends
+        .iter()
+        .enumerate()
+        .map(|(i, s)| s.follower && !s.echo && slots.iter().filter(|x| **x == slots[i]).count() == 1)
+        .collect();
     for (i, s) in case.sends.iter().enumerate() {
         let (m, g) = if s.from_far_end { (&b_mod, gates[k].clone()) } else { (&a_mod, gates[0].clone()) };
-        m.as_mut::<Node>().sends.push((i as u16, g, s.delay, s.body % 2000, slots[i]));
+        m.as_mut::<Node>().sends.push((i as u16, g, s.delay, s.body % 2000, slots[i], follower_ok[i]));
     }
     // echoes only for sends that have their time slot for themselves and distinct endpoint modules
     let echo_ok: Vec<bool> = case
@@ -307,6 +322,7 @@ pub fn run_case(case: &Case) -> Result<(bool, Vec<&'static str>), Failure> {
     third_res?;
 
     let mut labels_extra: Vec<&'static str> = Vec::new();
+    let mut queued = false;
     for (i, s) in case.sends.iter().enumerate() {
         let len = 64 + (s.body % 2000) as usize;
         let t0 = 100_000_000_000u128 * (slots[i] as u128 + 1) + s.delay.unwrap_or(0) as u128;
@@ -354,6 +370,34 @@ pub fn run_case(case: &Case) -> Result<(bool, Vec<&'static str>), Failure> {
             r.b >> 16,
             r.b & 0xffff
         );
+        if follower_ok[i] {
+            // the follower queues behind the first message wherever a hop has a bitrate: it still arrives exactly
+            // once, at the same module through the same gate, not before the uncontended arrival time
+            let id = i as i64 + 500;
+            let arr: Vec<&Rec> = log.iter().filter(|r| r.kind.starts_with("recv") && r.a == id).collect();
+            vensure!(
+                arr.len() == 1,
+                if arr.is_empty() { "message-lost" } else { "message-duplicated" },
+                "the second of two back-to-back messages (#{id}) sent into {} was delivered {} times (deliveries of it anywhere: {:?})",
+                if s.from_far_end { &gate_paths[k] } else { &gate_paths[0] },
+                arr.len(),
+                log.iter().filter(|r| r.a == id && (r.kind.starts_with("recv") || r.kind.starts_with("echo"))).map(|r| (r.path.clone(), r.now)).collect::<Vec<_>>()
+            );
+            let f = arr[0];
+            vensure!(f.path == *recv_path, "delivered-to-wrong-module", "queued message #{id} was delivered to '{}', the far end belongs to '{recv_path}'", f.path);
+            vensure!(f.now >= t, "arrival-time", "queued message #{id} arrived at {} ns, before the uncontended arrival time {t} ns", f.now);
+            vensure!(f.kind == format!("recv via {far_gate}"), "last-gate", "queued message #{id}: header.last_gate is '{}', the final gate is '{far_gate}'", &f.kind[9..]);
+            vensure!(
+                f.b == (s_id << 16) | r_id,
+                "header-module-ids",
+                "queued message #{id}: header (sender, receiver) = ({}, {}), expected ({s_id}, {r_id})",
+                f.b >> 16,
+                f.b & 0xffff
+            );
+            if hop_ch.iter().any(|c| matches!(c, Ch::Rate(..))) {
+                queued = true;
+            }
+        }
         if echo_ok[i] {
             // the echo travels the chain the other way round and arrives at the original sender
             let mut te = t;
@@ -392,7 +436,11 @@ pub fn run_case(case: &Case) -> Result<(bool, Vec<&'static str>), Failure> {
         labels_extra.push("echo-of-received-message");
     }
     let recvs = log.iter().filter(|r| r.kind.starts_with("recv")).count();
-    vensure!(recvs == case.sends.len(), "message-duplicated", "{recvs} deliveries for {} sends", case.sends.len());
+    let sent = case.sends.len() + follower_ok.iter().filter(|f| **f).count();
+    vensure!(recvs == sent, "message-duplicated", "{recvs} deliveries for {sent} sends");
+    if queued {
+        labels_extra.push("second-message-waits-in-channel-queue");
+    }
 
     let mut labels = labels_extra;
     if k >= 3 {
@@ -432,7 +480,8 @@ impl Prop for C08 {
     fn rule() -> String {
         "proptest: chains of 1..8 (quick) / 1..16 (thorough) hops over 1..17 modules (gates may share modules, gates taken from clusters of size 1..3), \
          built by one connect call per hop in a generated permutation and orientation plus repeated calls in either orientation, channels (none / \
-         latency / bitrate+latency, never contended) on a generated subset of hops, sends from both endpoints with send() and send_in() (also simultaneously in opposite directions), an attempted \
+         latency / bitrate+latency) on a generated subset of hops, sends from both endpoints with send() and send_in() (also simultaneously in opposite directions; \
+         some followed at once by a second message that has to wait in the queueing channels: that one is checked for exactly-once delivery, module, gate and header only), an attempted \
          third connection on a transit gate under catch_unwind. Oracle: exactly one delivery per send at the owner of the far endpoint at send time + \
          sum of per-hop (len*8/bitrate + latency); header sender/receiver ids and last_gate; per-hop probes in chain order at the cumulative times; \
          gate kinds, path_iter from both ends (exact mirror), next_gate, path_end; third peer rejected with the documented panic and chain intact. \
@@ -441,7 +490,7 @@ impl Prop for C08 {
     }
     fn assumptions() -> Vec<String> {
         vec![
-            "sends are 100 s apart, so no channel is ever busy when a message arrives (contention is C07)".into(),
+            "sends are 100 s apart, so no channel is busy when a first message arrives; the arrival time of a queued second message is only bounded from below (queueing delays are C07)".into(),
             "transmission time is computed as Duration::from_secs_f64(len*8/bitrate) like the code does; its accuracy is checked in C07".into(),
         ]
     }
@@ -462,7 +511,7 @@ impl Prop for C08 {
         let gate = (any::<u16>(), 0u8..3, 0u8..3).prop_map(|(owner, size, pos)| GateSpec { owner, size, pos });
         let rep = (any::<u16>(), (any::<u16>(), any::<bool>(), ch.clone()).prop_map(|(hop, flipped, ch)| ConnectCall { hop, flipped, ch }));
         let send = (any::<bool>(), proptest::option::weighted(0.5, prop_oneof![Just(0u32), 1u32..1_000_000_000]), 0u16..2000, any::<bool>())
-            .prop_map(|(from_far_end, delay, body, with_prev)| SendSpec { from_far_end, delay, body, with_prev, echo: body % 3 == 0 });
+            .prop_map(|(from_far_end, delay, body, with_prev)| SendSpec { from_far_end, delay, body, with_prev, echo: body % 3 == 0, follower: body % 3 == 1 && body % 2 == 0 });
         (2usize..=max_hops + 1)
             .prop_flat_map(move |ngates| {
                 (
